@@ -165,7 +165,15 @@ feature mark {
   pos ligature f_i <anchor 10 400> mark @TOP ligComponent <anchor 90 400> mark @TOP;
 } mark;
 feature mkmk { pos mark acutecomb <anchor 5 600> mark @TOP; pos mark gravecomb <anchor 6 610> mark @TOP; } mkmk;
+lookup SUBX { sub b by e; sub c by e; sub d by e; } SUBX;
 feature calt {
+  # lists of coverages in which a one-glyph coverage precedes a longer one
+  sub a' [d c b]' lookup SUBX e;
+  sub x [d b]' lookup SUBX [y x];
+  pos a' [d c]' 15 x;
+  lookupflag UseMarkFilteringSet [gravecomb acutecomb];
+  sub c' gravecomb by b;
+  lookupflag 0;
   sub a' b' c by d;
   sub [a b]' d' by e;
   pos c' 10 d' 20 a;
